@@ -19,7 +19,7 @@
 From Coq Require Import List Arith Bool String ZArith Lia.
 From PV Require Import Base.Exn Base.Values Base.Ann Base.PyCall Model.CheckerCfg Model.Checker Model.PedanticCfg
   Model.Pedantic Model.PedanticEval Spec.Conforms Spec.PedanticSpec
-  Proofs.PedanticBase Proofs.PyCallFacts Proofs.PedanticC03 Proofs.PedanticWitness Gen.Pedantic Gen.CheckerTables.
+  Model.GenWrapper Proofs.PedanticBase Proofs.PyCallFacts Proofs.PedanticC03 Proofs.PedanticGen Proofs.PedanticWitness Gen.Pedantic Gen.CheckerTables.
 Import ListNotations.
 Close Scope Z_scope.
 Open Scope list_scope.
@@ -49,6 +49,43 @@ Theorem C03_result_guard_relative : forall pc check consumes f c bd a,
   exists e, fst (run pc check consumes f c bd) = Raise e.
 Proof. intros. eapply result_guard; eassumption. Qed.
 Print Assumptions C03_result_guard_relative.
+
+(* ---------------- generator functions ---------------- *)
+(* calling the generator function: a rejected supplied value => no generator object, nothing ran *)
+Theorem C03_generator_call_guard_relative : forall pc check consumes f c b a v,
+  pc_good pc = true -> sig_ok f = true -> twin_binding f c = Ok b ->
+  In (Some a, v) (supplied_of f c b) -> rejected check a v ->
+  snd (run_gen pc check consumes f c) = [] /\ exists e, fst (run_gen pc check consumes f c) = Raise e.
+Proof. intros. eapply args_guard_gen; eassumption. Qed.
+Print Assumptions C03_generator_call_guard_relative.
+
+(* iterating: for EVERY generator body, every yield / send / return type and every sequence of next / send / close
+   operations (any length; induction on the sequence): whatever next() / send() hands to the caller, and the
+   value of the final StopIteration, has been accepted by the checker.  Guard: no throw() (finding below). *)
+Theorem C03_generator_results_guard_partial : forall check yt st rt body ops w rs w',
+  forallb no_throw ops = true ->
+  w_run check yt st rt body w ops = (rs, w') -> Forall (res_ok check yt rt) rs.
+Proof. intros. eapply gen_results_guard; eassumption. Qed.
+Print Assumptions C03_generator_results_guard_partial.
+
+(* ... and a sent value reaches the generator only if the checker accepted it (or it is the None of next());
+   this half holds for ALL operation sequences, throw and close included *)
+Theorem C03_generator_sends_guard : forall check yt st rt body ops rs w',
+  w_run check yt st rt body wstate0 ops = (rs, w') -> Forall (resume_ok check st) (g_hist (w_inner w')).
+Proof. intros. eapply gen_sends_guard; [apply winv0|eassumption]. Qed.
+Print Assumptions C03_generator_sends_guard.
+
+(* GeneratorWrapper.throw delegates without checking: the value the generator yields (or returns) in response to
+   throw() reaches the caller unchecked *)
+Theorem C03_generator_throw_refuted : exists body ops rs w' v,
+  w_run gen_check AInt ANone ANone body wstate0 ops = (rs, w') /\ In (WValue v) rs
+  /\ rejected gen_check AInt v.
+Proof.
+  exists (script_body (TYield vx) [SYield (VInt 1%Z); SRet VNone]), [OpNext; OpThrow ValueErrorC].
+  eexists. eexists. exists vx. split; [vm_compute; reflexivity|]. split; [right; now left|].
+  intros tv. exists PTypeCheckC. reflexivity.
+Qed.
+Print Assumptions C03_generator_throw_refuted.
 
 Section Relative.
   Variable cfg : CheckerCfg.checker_cfg.
